@@ -5,4 +5,4 @@ PROP = "C01"
 run, search, replay = make(PROP, ('C01:',),
                            'Oracle C01: every field, item and nested accessor of the constructed object (and to_nplike of scalar arrays) returns the value the generator intended.',
                            [],
-                           ["references / union references and copy-construction from existing objects are outside the kernel-checked round trip (C01_roundtrip_partial covers the reference-free grammar); they are covered by the executable heap model's tie and the oracle", 'the conversion of input forms (nested lists, ndarray, dict) to the canonical value, and index order <-> memory order, are executable glue (Drv/LayP.lean) tied on every case, not theorems'])
+                           ["references / union references and copy-construction from existing objects are outside the kernel-checked round trip (C01_roundtrip_partial covers the reference-free grammar); they are covered by the executable heap model's tie and the oracle", 'the conversion of input forms (nested lists, ndarray, dict) to the canonical value, and index order <-> memory order, are executable glue (Drv/LayP.lean) tied on every case, not theorems'], rg=True)
